@@ -39,6 +39,8 @@ def cases(draw):
     params = [[PN[k], (str(draw(st.integers(10, 19))) if k >= n - ndef else None)] for k in range(n)]
     # body: optional local statements then return
     atoms = [p[0] for p in params] + ["K", "helper(2)", "3"]
+    if kind == "method" and draw(st.booleans()):
+        atoms += ["self.m", "self.m"]
     modattr = draw(st.integers(0, 3)) == 0
     if modattr:
         atoms += ["kx.v", "kx.v"]  # the body needs `import kx`, which rope has to add wherever it inlines the body
@@ -79,6 +81,7 @@ def cases(draw):
         "query": draw(st.sampled_from(["def", "site"])),
         "capture": draw(st.booleans()),
         "modattr": modattr,
+        "early_reader": draw(st.booleans()),
         "prefix_import": draw(st.booleans()),
     }
 
@@ -99,12 +102,13 @@ def render(case):
         imp = "import lib\nfrom lib import target, K, w, helper\n"
     elif kind == "method":
         ind = "    "
-        lib = head + "class Host:\n    def target(%s):\n%s        return %s\nobj = Host()\n" % (
+        lib = head + "class Host:\n    m = 9\n    def target(%s):\n%s        return %s\nobj = Host()\n" % (
             ", ".join(["self"] + ([ps] if ps else [])), "".join(ind + ln + "\n" for ln in body.splitlines()), case["ret"])
         local, qual = "obj.target", "lib.obj.target"
         imp = "import lib\nfrom lib import obj, K, w, helper\n"
     else:
-        lib = head + "target = %s\n" % case["var_expr"]
+        early = "def early_reader():\n    return target + 1\n" if case.get("early_reader") else ""
+        lib = head + early + "target = %s\n" % case["var_expr"] + ("print(early_reader())\n" if early else "")
         local, qual = "target", "lib.target"
         imp = "import lib\nfrom lib import target, K, w, helper\n"
     k = 0
